@@ -473,14 +473,22 @@ class Phase(Angle):
             func = ("{0:1." + str(precision) + "f}").format
 
         def do_format(count, frac):
-            if precision is not None:
+            if precision is not None or (frac < 0) != ((count + frac) < 0) and frac != 0:
                 # Exact decimal arithmetic on the two doubles, so that any number
                 # of digits can be shown (independent of the ambient context).
+                # Without a precision, 17 decimals keep the value to 1e-16 also
+                # when the fraction has the opposite sign of the value (adding 1
+                # to it, as done below, would round).
                 with decimal_context(Context(prec=1200, rounding=ROUND_HALF_EVEN)):
                     value = Decimal(float(count)) + Decimal(float(frac))
                     if value == 0:
                         value = abs(value)
-                    s = "{:{}.{}f}".format(value, "+" if alwayssign else "-", precision)
+                    s = "{:{}.{}f}".format(
+                        value, "+" if alwayssign else "-", 17 if precision is None else precision
+                    )
+                if precision is None:
+                    s = s.rstrip("0")
+                    s += "0" if s.endswith(".") else ""
                 if self.imaginary:
                     s += "j"
                 if format == "latex":
